@@ -202,10 +202,16 @@ def r18_3(ctx: Ctx, E: Effects, rule="R18.3"):
     for api in ("Molecule.__getitem__", "Molecule.__iter__"):
         f = ctx.func(api)
         roots = E.returns(f)
-        ctx.ob(rule, f, "%s returns %s" % (api, sorted({r[0] for r in roots})), ("self",) in roots and
-               not any(r[0] == "fresh" and r[1] == "AtomGro" for r in roots),
-               "atoms obtained by indexing/iterating a molecule wrap the molecule's own coordinate atoms (live views)",
-               node=f.node, provenance=[list(map(str, r)) for r in sorted(roots)])
+        fpv = E.prov(f)
+        per_return = []
+        for n_ in walk_no_nested(f.node):
+            if isinstance(n_, (ast.Return, ast.Yield)) and n_.value is not None:
+                per_return.append((n_, fpv.of(n_.value)))
+        bad_r = [(n_, r_) for n_, r_ in per_return if ("self",) not in r_]
+        ctx.ob(rule, f, "%s returns %s" % (api, sorted({r[0] for r in roots})), bool(per_return) and not bad_r,
+               "atoms obtained by indexing/iterating a molecule wrap the molecule's own coordinate atoms (live views) on "
+               "every return path" + ("" if not bad_r else " -- `%s` hands out detached copies" % norm(bad_r[0][0])),
+               node=bad_r[0][0] if bad_r else f.node, provenance=[list(map(str, r)) for r in sorted(roots)])
         # the AtomGro handed to Atom(...) is not a copy
         for c in calls_in(f.node):
             if call_name(c) == "Atom" and len(c.args) == 2:
@@ -280,6 +286,13 @@ def r18_4(ctx: Ctx, E: Effects, rule="R18.4"):
     ctx.ob(rule, gc[0] if gc else None, "geometric_center", okc,
            "the geometric centre is the mean of atoms_positions (one definition, so it ranges over the whole molecule)",
            node=gc[0].node if gc else None)
+    for g_ in gc:
+        state_reads = sorted({n_.attr for n_ in ast.walk(g_.node) if isinstance(n_, ast.Attribute) and norm(n_.value) == "self"
+                              and n_.attr not in ("atoms_positions",)})
+        state_writes = [n_ for n_ in ast.walk(g_.node) if isinstance(n_, ast.Attribute) and isinstance(n_.ctx, ast.Store)]
+        ctx.ob(rule, g_, "geometric_center reads self.%s" % (state_reads or ["atoms_positions"]), not state_reads and not state_writes,
+               "the centre is recomputed from the current positions on every access (no cached value that a write through a "
+               "live atom view would leave stale)", node=g_.node)
     it = mol.methods.get("__iter__")
     oki = it is not None and "for res in self._residues" in ast.unparse(it.node) and "for atom in res" in ast.unparse(it.node)
     ctx.ob(rule, it, "Molecule.__iter__", bool(oki), "iterating a molecule visits every atom of every residue in order",
